@@ -1057,7 +1057,16 @@ fn lit_str(l: &hir::Lit) -> String {
     use rustc_ast::LitKind::*;
     match &l.node {
         Str(s, _) => format!("s:{}", s),
-        ByteStr(..) | CStr(..) => "bytes".into(),
+        ByteStr(b, _) => {
+            // format_args! templates are lowered to byte strings: keep the printable part
+            let txt: String = b
+                .as_byte_str()
+                .iter()
+                .map(|c| if (0x20..0x7f).contains(c) { *c as char } else { '\u{b7}' })
+                .collect();
+            format!("bs:{}", txt)
+        }
+        CStr(..) => "bytes".into(),
         Byte(b) => format!("b:{}", b),
         Char(c) => format!("c:{}", c),
         Int(n, _) => format!("i:{}", n),
